@@ -141,8 +141,18 @@ type replayOutcome struct {
 	Done       bool
 }
 
-// runNative replays a file against the natively compiled harness.
+// runNative replays a file against the natively compiled harness.  Under the
+// race detector the native schedule is whatever the machine produces, so a
+// race replay is repeated a few times until the detector has seen the pair.
 func runNative(path string, race bool, timeout time.Duration) replayOutcome {
+	ro := runNativeOnce(path, race, timeout)
+	for try := 1; race && try < 8 && !strings.Contains(ro.Out, "WARNING: DATA RACE") && len(ro.Failed) == 0 && !ro.TimedOut && !ro.Panicked; try++ {
+		ro = runNativeOnce(path, race, timeout)
+	}
+	return ro
+}
+
+func runNativeOnce(path string, race bool, timeout time.Duration) replayOutcome {
 	if strings.Contains(path, "-steps-") {
 		timeout = 20 * time.Second // a hang is confirmed by a timeout: keep it short
 	}
@@ -214,7 +224,8 @@ func confirm(f *interp.Finding, ro replayOutcome) bool {
 	case "leak":
 		return strings.HasPrefix(ro.LeakLine, "NATIVE-LEAK")
 	case "race", "frozen-store":
-		return strings.Contains(ro.Out, "WARNING: DATA RACE")
+		// the race detector's report, or the visible consequence of the race (a wrong value)
+		return strings.Contains(ro.Out, "WARNING: DATA RACE") || len(ro.Failed) > 0
 	}
 	return false
 }
